@@ -8,6 +8,7 @@ M-EMPTY   where a function branches on the degenerate (0, 0) incidence shape, it
           that branch (using the callee fact, read from incidence_matrix, that both maps are empty there).
 M-DTYPE   where a builder branches on ``sparse``, both branches construct the matrix with the same element type (an int8 sparse
           incidence next to an int dense one makes every product of the sparse form wrap at 128).
+M-ZERO    a stored weight is never replaced by a default through truthiness (`x.get("weight") or 1` turns weight 0 into 1).
 M-NORM    the per-order normaliser of multiorder_laplacian (mean order-d degree) does not depend on rescale_per_node.
 Numerical equality with the textbook definitions is NOT decided.
 """
@@ -33,7 +34,7 @@ ROW_KIND = {
 def run(ctx):
     repo = ctx.repo
     res = Result(PROP)
-    res.rules = ["K1", "K2", "K5", "M-MAP", "M-EMPTY", "M-DTYPE", "M-NORM"]
+    res.rules = ["K1", "K2", "K5", "M-MAP", "M-EMPTY", "M-DTYPE", "M-ZERO", "M-NORM"]
     res.explanation = (
         "Narrow claim: kind inference over the matrix builders plus provenance of the returned index maps, definite "
         "assignment in the degenerate-shape branches and a dependency check on the multi-order normaliser. The numerical "
@@ -53,7 +54,23 @@ def run(ctx):
         res.floor("functions with an index option", n, 11)
         check_norm(repo, res)
         check_dtype(repo, res, fns)
+        from .common import pattern_lint
+
+        pattern_lint(res, PROP, "M-ZERO", fns, falsy_default_sites,
+                     "def _w(H, e):\n    return H.edges[e].get('weight') or 1\n",
+                     lambda n: f"`{unparse(n, 60)}` replaces a stored value by a default whenever it is falsy; an edge weight of 0 (an admissible non-negative weight) is silently counted as the default, so the weighted matrices no longer equal their definitions",
+                     "`<lookup> or <default>` on stored weights/attributes")
     return res
+
+
+def falsy_default_sites(fn_node):
+    """`X.get(k) or d`, `X[k] or d`, `X.get(k, d0) or d`: a stored number replaced by a default when it is falsy."""
+    for n in ast.walk(fn_node):
+        if isinstance(n, ast.BoolOp) and isinstance(n.op, ast.Or) and len(n.values) == 2:
+            a, b = n.values
+            looks_up = (isinstance(a, ast.Call) and isinstance(a.func, ast.Attribute) and a.func.attr == "get") or isinstance(a, ast.Subscript)
+            if looks_up and isinstance(b, ast.Constant) and isinstance(b.value, (int, float)) and not isinstance(b.value, bool):
+                yield n
 
 
 def check_dtype(repo, res, fns):
